@@ -348,6 +348,9 @@ func accessPath(v ssa.Value) string {
 // rangeKeyOf reports whether idx is the key variable of a `for k := range base` loop
 // (rotated SSA form: k = phi[-1, k+1]; k+1 < len(base)).
 func rangeKeyOf(idx ssa.Value, base ssa.Value) bool {
+	if classicCounterOf(idx, base) {
+		return true
+	}
 	add, ok := idx.(*ssa.BinOp)
 	if !ok || add.Op != token.ADD {
 		return false
@@ -757,6 +760,40 @@ func freshSlice(v ssa.Value, seen map[ssa.Value]bool) bool {
 		}
 	case *ssa.Const:
 		return t.IsNil()
+	}
+	return false
+}
+
+// classicCounterOf: idx is the counter of `for i := 0; i < len(base); i++` (or `i < n` with n := len(base)):
+// a phi that starts at 0, is advanced by 1, and whose loop condition compares it with the length of base.
+func classicCounterOf(idx ssa.Value, base ssa.Value) bool {
+	phi, ok := idx.(*ssa.Phi)
+	if !ok || len(phi.Edges) != 2 {
+		return false
+	}
+	zero, step := false, false
+	for _, e := range phi.Edges {
+		if k, ok := constInt(e); ok && k == 0 {
+			zero = true
+		}
+		if add, ok := e.(*ssa.BinOp); ok && add.Op == token.ADD && add.X == ssa.Value(phi) {
+			if k, ok := constInt(add.Y); ok && k == 1 {
+				step = true
+			}
+		}
+	}
+	if !zero || !step {
+		return false
+	}
+	want := accessPath(base)
+	for _, r := range *phi.Referrers() {
+		cmp, ok := r.(*ssa.BinOp)
+		if !ok || cmp.Op != token.LSS || cmp.X != ssa.Value(phi) || cmp.Block() != phi.Block() {
+			continue
+		}
+		if call, ok := cmp.Y.(*ssa.Call); ok && builtinName(call) == "len" && accessPath(call.Call.Args[0]) == want {
+			return true
+		}
 	}
 	return false
 }
